@@ -393,35 +393,47 @@ def chTicks (d : Data) (song : Song) : Nat → G → Ch → G × Ch × List Op
     let (g, c, o2) := chTicks d song n g c
     (g, c, o1 ++ o2)
 
-/-- `MD_PSG::v_update_envelope` -/
-def psgEnvelope (g : G) (c : Ch) (id : Nat) : G × Ch × List Op :=
-  if !c.enabled then (g, c, []) else
-  let c := if c.keyOn ∧ !c.slur then { c with envPos := 0, envDelay := 0x1f, envKeyoff := false } else c
+/-- `MD_PSG::v_update_envelope`, first statement: a key-on that is not slurred restarts the envelope -/
+def psgEnvRestart (c : Ch) : Ch :=
+  if c.keyOn ∧ !c.slur then { c with envPos := 0, envDelay := 0x1f, envKeyoff := false } else c
+
+/-- `MD_PSG::v_update_envelope`: sustain / loop command at the current envelope position;
+`none` = `vector::at` throws -/
+def psgEnvCmd (c : Ch) (d0 : Nat) : Option Ch :=
+  if d0 = 0x01 ∧ c.envKeyoff then some { c with envPos := (c.envPos + 1) % 256, envKeyoff := false }
+  else if d0 = 0x02 ∧ !c.envKeyoff then
+    match c.envData[c.envPos + 1]? with
+    | none => none
+    | some p => some { c with envPos := p }
+  else some c
+
+/-- `MD_PSG::v_update_envelope`: the byte at the (new) position — a level with its delay, or the
+end of the envelope -/
+def psgEnvValue (g : G) (c : Ch) (id : Nat) : G × Ch × List Op :=
+  match c.envData[c.envPos]? with
+  | none => (g.fail .oob, c, [])
+  | some d1 =>
+    if d1 > 0x0f then
+      (g, { c with envDelay := d1, envPos := (c.envPos + 1) % 256 }, vSetVol { c with envDelay := d1 })
+    else if c.evType = ev_REST ∧ c.envKeyoff then
+      (g, { c with envKeyoff := false, envPos := 0xff }, snW 1 id 15)
+    else (g, c, [])
+
+/-- `MD_PSG::v_update_envelope`, the envelope stepper -/
+def psgEnvBody (g : G) (c : Ch) (id : Nat) : G × Ch × List Op :=
   if c.envDelay < 0x20 ∨ c.envKeyoff then
     if c.envPos = 0xff then (g, c, []) else
     match c.envData[c.envPos]? with
     | none => (g.fail .oob, c, [])
     | some d0 =>
-      let step1 : Option Ch :=
-        if d0 = 0x01 ∧ c.envKeyoff then some { c with envPos := (c.envPos + 1) % 256, envKeyoff := false }
-        else if d0 = 0x02 ∧ !c.envKeyoff then
-          match c.envData[c.envPos + 1]? with
-          | none => none
-          | some p => some { c with envPos := p }
-        else some c
-      match step1 with
+      match psgEnvCmd c d0 with
       | none => (g.fail .oob, c, [])
-      | some c =>
-        match c.envData[c.envPos]? with
-        | none => (g.fail .oob, c, [])
-        | some d1 =>
-          if d1 > 0x0f then
-            let c := { c with envDelay := d1 }
-            (g, { c with envPos := (c.envPos + 1) % 256 }, vSetVol c)
-          else if c.evType = ev_REST ∧ c.envKeyoff then
-            (g, { c with envKeyoff := false, envPos := 0xff }, snW 1 id 15)
-          else (g, c, [])
+      | some c => psgEnvValue g c id
   else (g, { c with envDelay := c.envDelay - 0x10 }, [])
+
+/-- `MD_PSG::v_update_envelope` -/
+def psgEnvelope (g : G) (c : Ch) (id : Nat) : G × Ch × List Op :=
+  if !c.enabled then (g, c, []) else psgEnvBody g (psgEnvRestart c) id
 
 /-- `v_set_pitch` -/
 def vSetPitch (c : Ch) : List Op :=
